@@ -32,16 +32,16 @@ func VF_C11_LiveCloseAnytime(order int, pace int) {
 // block forever or panic (DESIGN.md observation O7), so hangs end a path
 // without a verdict and a panic of the in-flight caller is recovered.
 //
-// vf:harness property=C02 cases=order:0..1 cases.thorough=order:0..2 sched=1 schedbudget=1 schedbudget.thorough=2 preempt=1 schedtotal=1 schedtotal.thorough=2 goinline=1 chanslack=8 deadlock=ignore clock=zero maxpaths=400000 replay=model-only diff=off
+// vf:harness property=C02 cases=order:0..1;pace:0..2 cases.thorough=order:0..2;pace:0..2 sched=1 schedbudget=1 schedbudget.thorough=2 preempt=1 schedtotal=1 schedtotal.thorough=2 goinline=1 chanslack=8 deadlock=ignore clock=zero maxpaths=400000 replay=model-only diff=off
 // vf:replace hash/crc32.Update vfChecksumUpdate
 // vf:replace io.CopyN vfCopyN
 // vf:replace (*github.com/RoaringBitmap/roaring.Bitmap).ReadFrom vfRoaringReadFrom
 // vf:replace (*github.com/RoaringBitmap/roaring.Bitmap).ToBytes vfRoaringToBytes
-// vf:bounds one acknowledged batch, then a safe Batch in flight from a second goroutine while the first closes the writer; schedule bounds as VF_C11_LiveCloseAnytime
+// vf:bounds one acknowledged batch, then a safe Batch in flight from a second goroutine while the first closes the writer at once, after one scheduling point, or after the background settled (pace); schedule bounds as VF_C11_LiveCloseAnytime
 // vf:assume as VF_C02_AckedBatchIsDurable; schedules in which the in-flight Batch never returns, and a panic inside it, are outside the claim (observation O7)
-func VF_C02_AckWhileClosing(order int) {
+func VF_C02_AckWhileClosing(order int, pace int) {
 	vfSchedOrder(order)
-	vfLiveCloseAnytime(1, 0)
+	vfLiveCloseAnytime(1, pace)
 }
 
 func vfLiveCloseAnytime(inflight int, pace int) {
@@ -87,6 +87,9 @@ func vfLiveCloseAnytime(inflight int, pace int) {
 				}
 			}
 		}()
+	}
+	if inflight != 0 {
+		vfPace(pace) // how far the in-flight Batch and the background get before Close
 	}
 	r, rerr := w.Reader()
 	vfAssert(rerr == nil && r != nil, "a reader can be obtained")
